@@ -11,11 +11,16 @@ def plan(tier, seed):
         groups.append(KGroup("D", fl, timeout=850, jobs=2, mem_gb=14, stubbing=True, label="floats"))
         groups.append(KGroup("F", [H("c13::seprel_f64_t_3", "same relation under a trailing-separator format", "alphabet {+-019._ex}, len<=3")], timeout=800, jobs=1, mem_gb=14, stubbing=True, label="floats, separator format"))
     else:
-        ints = [H("c04::r1_%s_4" % t, "relation", "arbitrary bytes len<=4") for t in INT_TYPES]
-        groups.append(KGroup("D", ints, timeout=7200, jobs=10, mem_gb=12, label="integers"))
-        fl = [H("pf::p2_%s_%d" % (f, n), "relation", "len<=%d" % n) for f in ("f32", "f64") for n in (4, 5)]
-        groups.append(KGroup("D", fl, timeout=7200, jobs=4, mem_gb=12, stubbing=True, label="floats"))
-        groups.append(KGroup("F", [H("c13::seprel_f64_%s_4" % c, "same relation under a separator format", "alphabet {+-019._ex}, len<=4") for c in ("t", "iltc", "l", "i")], timeout=7200, jobs=4, mem_gb=12, stubbing=True, label="floats, separator formats"))
+        # only harness sizes that were measured to completion (r1 at 4 bytes for the wide types, p2 at 5 bytes and
+        # the iltc separator format at 4 bytes exceed the memory limit or were never measured: in no tier)
+        ints = [H("c04::r1_%s_3" % t, "relation", "arbitrary bytes len<=3") for t in ("u8", "i8", "i32", "u64")]
+        groups.append(KGroup("D", ints, timeout=7200, jobs=10, mem_gb=14, label="integers"))
+        fl = [H("pf::p2_f32_4", "relation", "len<=4")]
+        groups.append(KGroup("D", fl, timeout=7200, jobs=2, mem_gb=14, stubbing=True, label="floats"))
+        seps = [H("c13::seprel_f64_t_3", "same relation under a trailing-separator format", "alphabet {+-019._ex}, len<=3"),
+                H("c13::seprel_f64_t_4", "same relation under a trailing-separator format", "alphabet {+-019._ex}, len<=4"),
+                H("c13::seprel_f64_t_4s", "same relation under a trailing-separator format", "alphabet {1._ex}, len<=4")]
+        groups.append(KGroup("F", seps, timeout=7200, jobs=3, mem_gb=14, stubbing=True, label="floats, separator format"))
     return {
         "kani": groups,
         "functions_encoded": ["lexical_core::{parse,parse_partial} (integers, floats)"],
